@@ -743,7 +743,9 @@ func (e *Enc) selectField(env *specEnv, b SV, sel string) SV {
 				// nested struct/array: value is its sub-reference
 				return SV{T: l.Base, Sort: "Int", GT: types.NewPointer(f.Type())}
 			}
-			return SV{T: e.load(env.cur, l), Sort: e.sortOf(f.Type()), GT: f.Type()}
+			t := e.load(env.cur, l)
+			e.specLoadFacts(t, f.Type())
+			return SV{T: t, Sort: e.sortOf(f.Type()), GT: f.Type()}
 		}
 	}
 	// promoted through embedded fields (one level)
@@ -919,6 +921,28 @@ func (env *specEnv) call(x *SCall) SV {
 		name, _ := strconv.Unquote(lit.Val)
 		id := e.W.typeIDByName(name)
 		return SV{T: tEq(sx("i-typ", v.T), tInt(int64(id))), Sort: "Bool"}
+	case "unbox":
+		// unbox(v, "T"): the T-typed value held by interface v (meaningful when typeis(v, "T"))
+		v := arg(0)
+		lit, ok := x.Args[1].(*SLit)
+		if !ok || lit.Kind != "string" {
+			env.fail("unbox needs a type name string")
+		}
+		name, _ := strconv.Unquote(lit.Val)
+		t := e.W.parseTypeName(name)
+		if t == nil {
+			env.fail("unbox: unknown type %s", name)
+		}
+		return SV{T: e.unbox(v.T, t), Sort: e.sortOf(t), GT: t}
+	case "box":
+		// box(p, "*pkg.T"): the interface value holding pointer p with dynamic type T
+		v := arg(0)
+		lit, ok := x.Args[1].(*SLit)
+		if !ok || lit.Kind != "string" {
+			env.fail("box needs a type name string")
+		}
+		name, _ := strconv.Unquote(lit.Val)
+		return SV{T: sx("mk-iface", tInt(int64(e.W.typeIDByName(name))), v.T), Sort: "Iface"}
 	case "implements":
 		v := arg(0)
 		lit, ok := x.Args[1].(*SLit)
@@ -1217,4 +1241,24 @@ func (env *specEnv) tryEvalBool(x SExpr, anyError bool) (t Term, ok bool) {
 		}
 	}()
 	return env.evalBool(x), true
+}
+
+// specLoadFacts: values read from the heap in a spec are well-typed Go values (length/range facts only; no
+// allocation bound, the state may be any state of the activation).
+func (e *Enc) specLoadFacts(t Term, typ types.Type) {
+	if isTypeParam(typ) {
+		return
+	}
+	if strings.Contains(t, "!q") || strings.Contains(t, "!l") || strings.Contains(t, "!p") {
+		return // mentions a bound variable
+	}
+	switch u := typ.Underlying().(type) {
+	case *types.Slice:
+		e.assume(tAnd(tLe("0", sx("s-off", t)), tLe("0", sx("s-len", t)), tLe(sx("s-len", t), sx("s-cap", t)), tLe(sx("s-cap", t), maxLenBound),
+			tLe("0", sx("s-base", t)), tImp(tEq(sx("s-base", t), "0"), tAnd(tEq(sx("s-cap", t), "0"), tEq(sx("s-off", t), "0")))))
+	case *types.Basic:
+		if u.Info()&types.IsInteger != 0 && !e.bv {
+			e.assume(inRange(typ, t))
+		}
+	}
 }
